@@ -9,16 +9,25 @@ use serde_json::{json, Value};
 #[derive(Clone, Debug)]
 pub struct DocInput {
     pub dom: Option<Doc>,
+    /// a generated input with several top-level elements (an XML fragment that repeats its root)
+    pub frag: Option<Vec<Item>>,
     pub bytes: Vec<u8>,
 }
 
 impl DocInput {
     pub fn from_dom(d: Doc) -> Self {
         let bytes = d.to_xml().into_bytes();
-        DocInput { dom: Some(d), bytes }
+        DocInput { dom: Some(d), frag: None, bytes }
     }
     pub fn from_bytes(b: Vec<u8>) -> Self {
-        DocInput { dom: None, bytes: b }
+        DocInput { dom: None, frag: None, bytes: b }
+    }
+    pub fn from_items(items: Vec<Item>) -> Self {
+        let mut s = String::new();
+        for it in &items {
+            crate::dom::write_item(it, &mut s);
+        }
+        DocInput { dom: None, frag: Some(items), bytes: s.into_bytes() }
     }
 }
 
@@ -126,9 +135,14 @@ impl HistoryCase {
             }
             body.push_str(&format!(
                 " {} {} {}",
-                match &d.dom {
-                    Some(doc) => doc.tokens(self.cfg.trim_text),
-                    None => "-".to_string(),
+                match (&d.dom, &d.frag) {
+                    (Some(doc), _) => doc.tokens(self.cfg.trim_text),
+                    (None, Some(items)) => {
+                        let mut s = String::from("FRG ");
+                        crate::dom::item_tokens(items, self.cfg.trim_text, &mut s);
+                        s
+                    }
+                    (None, None) => "-".to_string(),
                 },
                 evs,
                 res
@@ -212,6 +226,7 @@ impl HistoryCase {
             "options": self.opts.iter().map(|o| json!({"text_identifier": o.text_identifier, "attribute_prefix": o.attribute_prefix, "derive": o.derive, "sort_by_name": o.sort_by_name})).collect::<Vec<_>>(),
             "documents": self.docs.iter().map(|d| json!({
                 "generated": d.dom.is_some(),
+                "fragment": d.frag.is_some(),
                 "text": String::from_utf8_lossy(&d.bytes),
                 "hex": d.bytes.iter().map(|b| format!("{:02x}", b)).collect::<String>(),
             })).collect::<Vec<_>>(),
@@ -247,7 +262,8 @@ impl HistoryCase {
             };
             let generated = d["generated"].as_bool().unwrap_or(true);
             let dom = if generated { crate::xmlread::read_doc(&bytes) } else { None };
-            docs.push(DocInput { dom, bytes });
+            let frag = if d["fragment"].as_bool().unwrap_or(false) { crate::xmlread::read_items(&bytes) } else { None };
+            docs.push(DocInput { dom, frag, bytes });
         }
         Ok(HistoryCase { docs, cfg, opts, repeats: v["repeats"].as_u64().unwrap_or(1) as usize, theme: v["theme"].as_str().unwrap_or("").to_string() })
     }
